@@ -170,17 +170,18 @@ known("KF-08", DIFF, "an empty alternative that should win loses to a later non-
       "meta/find_indices.go routes patterns to the bounded backtracker / two-phase capture path whose alternation handling prefers the consuming branch: ((?:|b)) on \"b\" gives [0 1 0 1]",
       [{"must": ["empty_alt"], "kinds_not": NOPANIC}],
       [dc("C03", "((?:|b))", "b")])
-known("KF-20", ["C14", "C12", "C13"], "lazy DFA gives wrong answers when its cache is too small to hold the automaton",
-      "dfa/lazy: with CacheCapacityBytes/MaxStates below a few states the give-up path returns -1 or a stale position instead of falling back to the NFA (meta.Config.MaxDFAStates/DeterminizationLimit at their minimum reach this)",
-      [{"props": ["C14"], "groups": ["lazydfa", "lazydfa-rev"], "sites": ["cap=tiny*", "cap=maxstates*", "cap=small*"], "kinds_not": NOPANIC},
-       {"props": ["C12"], "sites": ["limits=tiny-dfa*"], "kinds_not": NOPANIC},
-       {"props": ["C13"], "sites": ["*tinydfa*"], "kinds_not": NOPANIC}],
-      [{"property": "C14", "pattern": "/", "cache_capacity_bytes": 0, "max_states": 1, "max_cache_clears": 5, "determinization_limit": 1000, "class_representatives": [0, 1], "exhaustive_len": 3}])
-known("KF-21", ["C14"], "reverse lazy DFA start position for patterns with an optional first element / earliest-match end at default capacity",
-      "dfa/lazy reverse search and SearchFirstAt disagree with the exact-span oracle on a few shapes even with the default cache (see witness)",
-      [{"props": ["C14"], "groups": ["lazydfa-rev"], "kinds": ["POS", "FN"], "kinds_not": NOPANIC},
-       {"props": ["C14"], "apis": ["DFA.SearchFirstAt", "DFA.SearchAtAnchored"], "kinds_not": NOPANIC}],
-      [])
+fixed("FX-29", ["C14", "C12", "C13", "C02"], "f767027", "lazy DFA cache-full protocol lost the search state",
+      "with a cache smaller than the automaton (CacheCapacityBytes/MaxStates at their minimum, or large Unicode classes under the default 2 MB) searches returned -1 or a stale position: transition rows of discarded states were inherited after a clear, the scan restarted from a start state, an ID-less start state indexed row 0, the reverse fallback ran the forward simulator over the reversed automaton, the anchored fallback was unanchored",
+      [{"property": "C14", "pattern": "/", "cache_capacity_bytes": 0, "max_states": 1, "max_cache_clears": 5, "determinization_limit": 1000, "class_representatives": [0, 1], "exhaustive_len": 3},
+       {"property": "C14", "pattern": "z", "cache_capacity_bytes": 0, "max_states": 2, "max_cache_clears": 4, "determinization_limit": 1000, "class_representatives": [0, 22, 0], "exhaustive_len": 3},
+       {"property": "C14", "pattern": "[c-f0-9d-f]+[\\x{3a3}aa]+a?", "cache_capacity_bytes": 1, "max_cache_clears": 2, "determinization_limit": 1000, "class_representatives": [40, 8, 1], "exhaustive_len": 3, "extra_haystacks": [q("a9/0aa")]},
+       {"property": "C14", "pattern": "(?:a|b)*a(?:a|b){8}ac", "cache_capacity_bytes": 4096, "max_cache_clears": 1, "determinization_limit": 1000, "class_representatives": [0, 1], "exhaustive_len": 4}])
+known("KF-21", ["C14"], "lazy DFA: earliest-match search falls back to the leftmost-first end; reverse scans report no match for an empty region",
+      "dfa/lazy/lazy.go: searchFirstAt gives up through nfaFallback (PikeVM leftmost-first end, not the earliest end) when the cache or the determinisation limit is exceeded; SearchReverse/SearchReverseLimited/IsMatchReverse return -1/false for end==start even when the pattern matches the empty string there (callers in meta never pass an empty region)",
+      [{"props": ["C14"], "apis": ["DFA.SearchFirstAt"], "kinds": ["POS"]},
+       {"props": ["C14"], "apis": ["DFA.SearchReverse", "DFA.SearchReverseLimited", "DFA.IsMatchReverse"], "kinds": ["FN"], "must": ["can_match_empty"]}],
+      [{"property": "C14", "pattern": "\\w+", "cache_capacity_bytes": 0, "max_states": 1, "max_cache_clears": 4, "determinization_limit": 1000, "class_representatives": [7, 26, 34], "exhaustive_len": 3},
+       {"property": "C14", "pattern": "[d-e]*", "cache_capacity_bytes": 512, "max_cache_clears": 3, "determinization_limit": 20, "class_representatives": [29, 14, 22, 35], "exhaustive_len": 3}])
 known("KF-25", ["C14"], "lazy DFA *At entry points treat the start offset as the beginning of the text for ^ / \\A",
       "dfa/lazy/start.go: the start state for at>0 is chosen from the previous byte only, so \\A matches at every offset when the DFA is driven directly (the meta engine refuses at>0 for anchored patterns before calling it)",
       [{"props": ["C14"], "groups": ["lazydfa", "lazydfa-rev"], "any_of": ["anchor"], "kinds_not": NOPANIC}],
